@@ -44,6 +44,15 @@ CLAIMED["C20"] = dict(
          "as the real RDB builds them); cross-thread mutation mid-read is C03",
     design="§3 C20")
 
+CLAIMED["C16"] = dict(
+    text="Bounded symbolic execution of the real prune() of Percentile/Median/SuccessiveHalving/Hyperband/Patient/Threshold/Nop pruners on "
+         "symbolic histories (z3-int parameters, z3-real or NaN intermediate values, forked steps and states; SH/Hyperband through the real "
+         "ask/report/should_prune flow). z3 discharges on every path: warm-up/start-up/patience gates, strictly-best-is-never-pruned, "
+         "threshold iff, nop never, bracket = f(name, number); integer gates also for unbounded steps.",
+    note="trusted: z3, NumPy object-array shim (nanmin/nanmax/nanpercentile; validated against real NumPy each run), exact reals for value "
+         "comparison; Wilcoxon and bootstrap>0 outside; <=3 other trials, <=4 steps",
+    design="§3 C16")
+
 NOT_APPLICABLE = {
     "C03": "thread/process pre-emption at source-line granularity inside the storage layer cannot be made a symbolic variable over the "
            "real Python code by a solver-based executor; its atomic-step obligations are discharged under C01/C04/C06/C07",
